@@ -46,7 +46,8 @@ pub fn policy_text(p: &RPolicy, st: &mut text::Style<'_>) -> String {
         }
     }
     s.push_str(if p.permit { "permit" } else { "forbid" });
-    s.push_str(&format!("({}, {}, {})", prc_text("principal", &p.principal, st), actc_text(&p.action, st), prc_text("resource", &p.resource, st)));
+    let trail = if st.chance(1, 8) { "," } else { "" };
+    s.push_str(&format!("({}, {}, {}{trail})", prc_text("principal", &p.principal, st), actc_text(&p.action, st), prc_text("resource", &p.resource, st)));
     for (when, body) in &p.conds {
         s.push_str(&format!(" {} {{ {} }}", if *when { "when" } else { "unless" }, text::expr(body, st)));
     }
